@@ -192,6 +192,40 @@ def formOutFlat (root : Str) (lists : List Str) (rows : List Cells) (settings : 
             .ok { items := items, inst := instanceOf root (liftL all), binds := bindPathsL [root] (liftL all),
                   body := bodyPathsL [root] (liftL items) }
 
+/-! ## Code-shaped bind nodesets and body refs
+
+`get_xpath` drops the segment of every flat ancestor (and of a flat element itself); `xml_bindings` returns nothing
+for a flat group; `GroupedSection.xml_control` gives a flat group's `<group>` no `ref`.  These two functions walk the
+flat-aware tree the way the code does; `Pyxv.C02.bindPathsFL_eq_lift` / `bodyPathsFL_eq_lift` prove them equal to the
+paths of the lifted tree, for every tree. -/
+
+mutual
+def bindPathsF (pre : List Str) : FItem → List (List Str)
+  | .q d => if d.bind then [pre ++ [d.name]] else []
+  | .sec _ n b fl ks =>
+    if fl then bindPathsFL pre ks else (if b then [pre ++ [n]] else []) ++ bindPathsFL (pre ++ [n]) ks
+def bindPathsFL (pre : List Str) : List FItem → List (List Str)
+  | [] => []
+  | k :: ks => bindPathsF pre k ++ bindPathsFL pre ks
+end
+
+mutual
+def bodyPathsF (pre : List Str) : FItem → List (List Str)
+  | .q d => if d.control then [pre ++ [d.name]] else []
+  | .sec ct n _ fl ks =>
+    if fl then bodyPathsFL pre ks
+    else if ct = .rep then (pre ++ [n]) :: (pre ++ [n]) :: bodyPathsFL (pre ++ [n]) ks
+    else (pre ++ [n]) :: bodyPathsFL (pre ++ [n]) ks
+def bodyPathsFL (pre : List Str) : List FItem → List (List Str)
+  | [] => []
+  | k :: ks => bodyPathsF pre k ++ bodyPathsFL pre ks
+end
+
+/-- what the driver reports: instance of the lifted tree, code-shaped bind nodesets and body refs -/
+def shapeOut (root : Str) (rows : List Cells) (settings : Cells) (o : FlatOut) : FlatOut :=
+  { o with binds := bindPathsFL [root] (withMetaF (rows.map dropFlat) settings o.items),
+           body := bodyPathsFL [root] o.items }
+
 /-! ## Driver op -/
 open Lean in
 partial def ntJ : NT → Json
@@ -204,7 +238,8 @@ def flatModel (root : Str) (lists : List Str) (rows : List Cells) (settings : Ce
   | .error (.unsupported w) => Json.mkObj [("outcome", "unsupported"), ("why", Json.str w)]
   | .error (.err e) => Json.mkObj [("outcome", "error"), ("err", Json.str (reprStr e))]
   | .error (.unknownType n) => Json.mkObj [("outcome", "error"), ("err", Json.str s!"unknownType {n}")]
-  | .ok o =>
+  | .ok o0 =>
+    let o := shapeOut root rows settings o0
     Json.mkObj [("outcome", "ok"), ("instance", ntJ o.inst), ("binds", pj o.binds), ("body", pj o.body),
       ("closed", Json.bool ((o.binds ++ o.body).all (resolves o.inst)))]
 
